@@ -1135,6 +1135,9 @@ package gorums
 //@   ensures[C14.f] result != nil ==> old(in(node.id, m.lookup)) && m.lookup == old(m.lookup) && m.nodes == old(m.nodes)
 //@   ensures[C14.f] result != nil ==> forall(id, in(id, m.lookup) <==> old(in(id, m.lookup)))
 //@   ensures node.id == old(node.id) && node.addr == old(node.addr)
+//@   ensures[C14.f] old(forall(id, in(id, m.lookup) ==> m.lookup[id] != nil && m.lookup[id].id == id)) ==> \
+//@       forall(id, in(id, m.lookup) ==> m.lookup[id] != nil && m.lookup[id].id == id)
+//@   ensures[C14.f] m.lookup == old(m.lookup)
 //@   ensures[C14.d] base(m.nodes) == old(base(m.nodes)) || !wasalloc(base(m.nodes))
 //@   ensures[C14.d] forall(b, forall(k, b != old(base(m.nodes)) && wasalloc(b) ==> elems("*RawNode")[b][k] == old(elems("*RawNode")[b][k])))
 //@   ensures[C14.f] forall(n, "*RawNode", wasalloc(n) ==> n.id == old(n.id) && n.addr == old(n.addr))
@@ -1147,11 +1150,13 @@ package gorums
 
 //@ func NewRawNodeWithID
 //@   props C14
+//@   ensures[C14.f] forall(n, "*RawNode", wasalloc(n) ==> n.id == old(n.id) && n.addr == old(n.addr) && n.mgr == old(n.mgr) && n.channel == old(n.channel))
 //@   ensures[C14.g] result1 == nil ==> result0 != nil && result0.id == id && result0.addr == tcpString(resolved(addr)) && !wasalloc(result0)
 //@   ensures[C14.g] result1 != nil ==> result0 == nil
 
 //@ func NewRawNode
 //@   props C14
+//@   ensures[C14.f] forall(n, "*RawNode", wasalloc(n) ==> n.id == old(n.id) && n.addr == old(n.addr) && n.mgr == old(n.mgr) && n.channel == old(n.channel))
 //@   ensures[C14.g] result1 == nil ==> result0 != nil && result0.addr == tcpString(resolved(addr)) && !wasalloc(result0)
 //@   ensures[C14.g] result1 != nil ==> result0 == nil
 
